@@ -71,8 +71,11 @@ def scenario(draw, tier="quick"):
     strategies.append(gen.strategy_spec("A", client=0, script=[{"m": 0, "at": 1, "ops": ops[:split]}] if ops[:split] else []))
     if n_clients == 2:
         strategies.append(gen.strategy_spec("B", client=1, script=[{"m": 0, "at": 1, "ops": ops[split:]}] if ops[split:] else []))
-    # the executing update, then passive trades
+    # the executing update, then (sometimes) a price replacement of a resting order, then passive trades
     steps.append({"dt": 1000, "k": "book", "rc": []})
+    if draw(st.integers(0, 2)) == 0:
+        strategies[0]["script"].append({"m": 0, "at": 2, "ops": [{"op": "replace", "o": draw(st.integers(0, 7)), "ticks": draw(st.sampled_from([-4, -1, 1, 3]))}]})
+        steps.append({"dt": 1000, "k": "book", "rc": []})
     for _ in range(draw(st.integers(0, 4))):
         r = draw(st.integers(0, nr - 1))
         steps.append({"dt": 500, "k": "book", "rc": [{"r": r, "trd": [[max(0, min(nt - 1, mids[r] + draw(st.integers(-4, 4)))),
@@ -136,11 +139,9 @@ def _evaluate(sc, lb):
     winners = sum(1 for s in final.runner_status if s == "WINNER")
     n_dh = winners if winners > spec["number_of_winners"] else 1
     line_result = None
-    for s in sc["strategies"]:
-        for ent in s.get("script", []):
-            for op in ent["ops"]:
-                if op["op"] == "line_result":
-                    line_result = op["value"]
+    for r in lb.op_log:  # what the strategy actually told the framework (not merely what was scripted)
+        if r.op["op"] == "line_result" and r.result == "set":
+            line_result = r.op["value"]
     classes = {"kind:" + sc.get("_kind", mtype)}
     nontrivial = False
     per_client = {}
@@ -155,7 +156,7 @@ def _evaluate(sc, lb):
         profit = order.profit
         otype = order.order_type.ORDER_TYPE.name
         tie = False
-        order_is_line = is_line and otype == "LIMIT"
+        order_is_line = is_line and otype == "LIMIT"  # the market's ladder decides, not the order's own attribute
         try:
             exact = settlement.settle(side, fills, status, mtype, n_dh, spec.get("each_way_divisor"), line_result, order_is_line)
         except ValueError:
